@@ -166,6 +166,8 @@ bool storeRebuildParseEntry(MemBuf &, StoreEntry &tmpe, cache_key *key, StoreReb
 }
 
 static unsigned keyOf[MAXSLOT];
+static bool onlyCrossLink = false; // set by c57_known_cross_entry_link only
+static bool KNOWN_IMAGE = false;   // the known-finding entry's small image family (see buildImage)
 // would loadOneSlot() hand this slot to useNewSlot()? (what DbCellHeader::sane() demands, for a completely read slot)
 static bool loadable(const unsigned s)
 {
@@ -178,7 +180,8 @@ static void buildImage()
     memset(image, 0, sizeof(image));
     for (unsigned s = 0; s < NSLOT; ++s) {
         Rock::DbCellHeader &h = disk[s];
-        const unsigned k = pickKey("key");
+        // known-finding family: slot0 = key B, slots 1 and 2 = key A (the victim's slot is loaded first)
+        const unsigned k = KNOWN_IMAGE ? (s == 0 ? 1 : 0) : pickKey("key");
         h.key[0] = KEYS[k][0]; h.key[1] = KEYS[k][1];
         h.firstSlot = SANE_ONLY ? rangeS(0, NSLOT - 1, "firstSlot") : rangeS(-1, NSLOT, "firstSlot");
         h.nextSlot = SANE_ONLY ? rangeS(-1, NSLOT - 1, "nextSlot") : rangeS(-2, NSLOT, "nextSlot");
@@ -191,19 +194,22 @@ static void buildImage()
         shortLen[s] = truncated[s] ? vf_range(0, sizeof(h) - 1, "shortLen") : 0;
         keyOf[s] = k;
     }
-    // KNOWN-FINDING candidate 2: cross-entry chain links. finalizeOrThrow() follows nextSlot links into a slot that was
-    // mapped for a *different* entry which is not finalized yet (slot.mapped() && !slot.finalized() is all it checks).
+    // KNOWN FINDING (known_findings.json, C57-cross-entry-link*): cross-entry chain links. finalizeOrThrow() follows
+    // nextSlot links into a slot that was mapped for a *different* entry which is not finalized yet (slot.mapped() &&
+    // !slot.finalized() is all it checks; LoadingSlot does not record for which entry a slot was mapped).
     // The thief becomes readable with the foreign slot in its chain; when the victim is validated it is freed, so its
     // slot enters the free-slot index while still in the thief's chain; the thief's own unreachable slot stays
     // mapped-but-unfinalized and, with squid -S, validateOneSlot()'s Must() escapes and kills the rebuild; and if the
     // thief is freed in between (a later duplicate slot), the stolen slot is pushed to the free-slot index twice
-    // (assertion in PageStack). Excluded input class: a loadable slot (not truncated, header sane) whose nextSlot names
-    // a loadable slot whose header key belongs to a different entry (anchor).
+    // (assertion in PageStack). The class: a loadable slot (not truncated, header sane) whose nextSlot names a loadable
+    // slot whose header key belongs to a different entry (anchor). It is examined by its own entry
+    // (c57_known_cross_entry_link), whose violations are listed in known_findings.json; every other entry excludes
+    // exactly this class.
     bool crossLink = false;
     for (unsigned a = 0; a < NSLOT; ++a)
         for (unsigned b = 0; b < NSLOT; ++b)
             crossLink |= loadable(a) & loadable(b) & (disk[a].nextSlot == (int)b) & (KEYS[keyOf[a]][0] % NSLOT != KEYS[keyOf[b]][0] % NSLOT);
-    vf_assume(!crossLink);
+    vf_assume(crossLink == onlyCrossLink);
 }
 
 // ---------------------------------------------------------------- the check
@@ -240,18 +246,9 @@ static void rebuild(const unsigned nslot, const unsigned nkey, const bool saneOn
     rb->parts = new Rock::LoadingParts(*sd, rb->resuming);
 
     bool escaped = false;
-    bool shortAtValidation[MAXSLOT] = {false, false, false, false};
     try {
         rb->loadingSteps();
         vf_assert(rb->doneLoading(), "loading visits every slot");
-        // ghost: entries still loading whose known size exceeds the payload loaded for them (KNOWN-FINDING candidate 1 below)
-        for (unsigned f = 0; f < NSLOT; ++f) {
-            Rock::LoadingEntry le = rb->loadingEntry(f);
-            if (le.state() == Rock::LoadingEntry::leLoading) {
-                const uint64_t known = sd->map->writeableEntry(f).basics.swap_file_sz;
-                shortAtValidation[f] = known > 0 && le.size < known;
-            }
-        }
         rb->validationSteps();
         vf_assert(rb->doneValidating(), "validation visits every entry and slot");
     } catch (...) {
@@ -316,11 +313,6 @@ static void rebuild(const unsigned nslot, const unsigned nkey, const bool saneOn
             vf_assert(disk[id].key[0] == disk[c.ids[0]].key[0] && disk[id].key[1] == disk[c.ids[0]].key[1], "chain mixes slots written for different keys");
             total += slice.size;
         }
-        // KNOWN-FINDING candidate 1: an entry whose inode/metadata states a total size larger than the payload of all its
-        // loaded slots (a partially written or size-corrupted entry) is still loading when validation starts;
-        // finalizeOrThrow() then only compares the chain with the payload seen (le.size), never with the known
-        // swap_file_sz, and makes the short entry readable. Exactly that class is excluded here.
-        vf_assume(!(shortAtValidation[fileno] && total < a->basics.swap_file_sz));
         vf_assert(total == a->basics.swap_file_sz, "payload sizes add up to the entry size");
         vf_observe("total", total);
         sd->map->closeForReading(fileno);
@@ -330,6 +322,10 @@ static void rebuild(const unsigned nslot, const unsigned nkey, const bool saneOn
     vf_reach(readable == 0 ? "none-readable" : readable == 1 ? "one-readable" : "two-readable");
     WITNESS_POINT();
 }
+// KNOWN FINDING (known_findings.json, C57-cross-entry-link*): N=3 sane slots, slot0 written for key B, slots 1 and 2 for
+// key A; firstSlot, nextSlot, payloadSize, entrySize of every slot and the metadata verdict/size symbolic, restricted to
+// images with a cross-entry nextSlot link. Strict oracle (nothing excluded besides the restriction to the class).
+extern "C" void c57_known_cross_entry_link(void) { onlyCrossLink = true; KNOWN_IMAGE = true; rebuild(3, 2, true); }
 extern "C" void c57_3slots_2keys(void) { rebuild(3, 2); }
 extern "C" void c57_2slots(void) { rebuild(2, 2); }
 extern "C" void c57_3slots_sane(void) { rebuild(3, 2, true); }
